@@ -127,5 +127,8 @@ rs_register_eqns intListEq
 -- [poller] begin: trait-impl method resolution (`Rs/Interp.lean`, block [poller])
 rs_register_eqns SelfKind.hasRecv traitImplCands traitImplDecl
 -- [poller] end
+-- [errors] BEGIN
+rs_register_eqns enumFromKeys fnPathArg fnPathParams fnPathArgs
+-- [errors] END
 
 end ClockBound.Rs
